@@ -497,15 +497,19 @@ def build_stream(qid, rows, phases, T=300., P=101325.):
 
 
 def apply_and_judge(ctx, site, region, rxn, ref, basis, pid, feed, tgt, phases=(), qid=None,
-                    stream_phase='l', T=300., P=101325., rtol=1e-12, check_conservation=True, coef_tol=0.0):
+                    stream_phase='l', T=300., P=101325., rtol=1e-12, check_conservation=True, coef_tol=0.0,
+                    repeat=1, touch_mass=False):
     """Apply the real object ``rxn`` (defined on package ``pid``, reference model ``ref`` in ``basis``)
     to a fresh target holding ``feed`` (dense, P order; 1-d for phase-less reactions, phases x N
-    otherwise) and compare with the NumPy reference.  Returns the outcome dict."""
+    otherwise) and compare with the NumPy reference.  Returns the outcome dict of the first application.
+
+    ``repeat`` > 1 applies the object again to the SAME target (site ``<site>.again``), the reference being
+    applied to the previous reference result; ``touch_mass`` reads the stream's mass view before the first call
+    (both must not matter)."""
     from thermosteam.base import SparseVector, SparseArray
     pnames = list(PACKAGES[pid])
     qid = qid or pid
     qnames = list(PACKAGES[qid])
-    MWp = mw(pid)
     feed = np.array(feed, float)
     two_d = bool(phases)
     stream = None
@@ -528,6 +532,27 @@ def apply_and_judge(ctx, site, region, rxn, ref, basis, pid, feed, tgt, phases=(
             raise HarnessError(tgt)
         if tgt != 'S' and qid != pid:
             raise HarnessError('array views of a stream need the reaction package')
+    if touch_mass and stream is not None:
+        stream.imass.data.to_array(); stream.mass      # creates / caches the mass view
+    first = None
+    cur = feed
+    for it in range(max(1, repeat)):
+        out = _react_once(ctx, site if it == 0 else site + '.again', region, rxn, ref, basis, pid, qid, cur, tgt, phases,
+                          target, stream, units, T, P, rtol, check_conservation, coef_tol)
+        first = first or out
+        if out['raised']:
+            break                 # a mol-basis target keeps the infeasible flows: nothing more to compare
+        nxt = np.where(out['cmp_out'] < 0, 0.0, out['cmp_out'])
+        cur = nxt / mw(qid) if tgt == 'mass' else nxt
+    return first
+
+
+def _react_once(ctx, site, region, rxn, ref, basis, pid, qid, feed, tgt, phases, target, stream, units, T, P, rtol,
+                check_conservation, coef_tol):
+    pnames = list(PACKAGES[pid])
+    qnames = list(PACKAGES[qid])
+    MWp = mw(pid)
+    two_d = bool(phases)
     # ---- reference --------------------------------------------------------
     if units == 'stream':
         mol_in = feed
@@ -643,4 +668,9 @@ def apply_and_judge(ctx, site, region, rxn, ref, basis, pid, feed, tgt, phases=(
         ctx.metric_max('F_mass:rel_err', r)
         if stream.T != T or stream.P != P:
             ctx.fail(f'{site}|{region}|thermal', 'T or P changed by an isothermal reaction call')
+        # the mass view of the stream describes the same material as its molar flows
+        mv = np.atleast_2d(np.array(stream.imass.data.to_array(), float))
+        mq = np.atleast_2d(got) * mw(qid)
+        if mv.shape != mq.shape or not np.abs(mv - mq).max() <= 1e-9 * max(1.0, float(np.abs(mq).sum())):
+            ctx.fail(f'{site}|{region}|mass-view', f'stream.imass {mv.tolist()} does not describe stream.imol * MW {mq.tolist()}')
     return out
